@@ -378,6 +378,10 @@ func fromOrig(c common, orig any) (Manifest, error) {
 	origDigest := c.desc.Digest
 
 	mj, err := json.Marshal(orig)
+	if sm, ok := orig.(schema1.SignedManifest); ok {
+		// MarshalJSON has a pointer receiver, a value would be serialized without its signatures
+		mj, err = sm.MarshalJSON()
+	}
 	if err != nil {
 		return nil, err
 	}
